@@ -179,7 +179,7 @@ impl Property for C20 {
         std_bounds(tier, 40)
     }
     fn cases(&self, tier: Tier) -> u32 {
-        tier.pick(4000, 100_000)
+        tier.pick(1500, 100_000)
     }
     fn strategy(&self, tier: Tier) -> BoxedStrategy<HistCase> {
         prop_oneof![stream_hist_ext(tier, 40), hist_strategy_dom(2, tier.pick(5, 7), tier.pick(30, 60), 40, false, true)].boxed()
